@@ -1,3 +1,85 @@
-(* C16 -- placeholder until the proofs land; see DMP*.v *)
-From Coq Require Import List ZArith.
-Require Import XV.DMP.
+(* C16 -- the character-level text diff preserves both texts.
+
+   Model: XV.DMP (diff_match_patch.diff_main / diff_cleanupSemantic with everything they call, and
+   XMLFormatter._realign_placeholders / _join_delete_insert).  [t1 d] is the text given by the
+   equal+delete segments of a diff, [t2 d] the text given by its equal+insert segments.
+   [cc] is the classification of characters by str.isalnum/str.isspace (it only steers the cosmetic
+   scoring), [clock] answers the successive tests `time.time() > deadline` of diff_bisect. *)
+From Coq Require Import List ZArith NArith.
+Import ListNotations.
+Require Import XV.DMP XV.DMPCommon XV.DMPMain XV.DMPSemantic XV.DMPRealign
+               XV.DMPTotal XV.DMPTotalMerge XV.DMPTotalSem XV.DMPTotalMain.
+
+(* diff_main: for every clock and all strings, both strings are reconstructed and no segment is empty *)
+Theorem C16_main : forall cc clock a b d, diff_main cc clock a b = Ok d ->
+  t1 d = a /\ t2 d = b /\ Forall (fun s => snd s <> []) d.
+Proof. exact diff_main_spec. Qed.
+Print Assumptions C16_main.
+
+(* diff_cleanupSemantic: for EVERY segment list (well-formed or not) both texts are kept and the
+   result has no empty segment *)
+Theorem C16_semantic : forall cc d d', diff_cleanupSemantic cc d = Ok d' ->
+  t1 d' = t1 d /\ t2 d' = t2 d /\ Forall (fun s => snd s <> []) d'.
+Proof. exact cleanupSemantic_t12. Qed.
+Print Assumptions C16_semantic.
+
+(* diff_cleanupMerge (used by both): both texts are kept; no empty segment is introduced *)
+Theorem C16_merge : forall d d', cleanupMerge d = Ok d' ->
+  t1 d' = t1 d /\ t2 d' = t2 d /\ (Forall (fun s => snd s <> []) d -> Forall (fun s => snd s <> []) d').
+Proof. exact cleanupMerge_t12. Qed.
+Print Assumptions C16_merge.
+
+(* _realign_placeholders: apart from CLOSE placeholders (which it may drop, move and add) both texts
+   are kept, character for character and in order -- in particular OPEN placeholders stay where they
+   are; and it produces no empty segment.  [wf_cls]: the close_ph of an OPEN entry of the placeholder
+   table is itself registered as a CLOSE placeholder (PlaceholderMaker.get_placeholder guarantees it). *)
+Theorem C16_realign : forall cls d d', wf_cls cls -> realign cls d = Ok d' ->
+  erase_close cls (t1 d') = erase_close cls (t1 d) /\
+  erase_close cls (t2 d') = erase_close cls (t2 d) /\
+  Forall (fun s => snd s <> []) d'.
+Proof. exact realign_spec. Qed.
+Print Assumptions C16_realign.
+
+(* the statement with OPEN and CLOSE placeholders erased (weaker) *)
+Theorem C16_realign_oc : forall cls d d', wf_cls cls -> realign cls d = Ok d' ->
+  erase_oc cls (t1 d') = erase_oc cls (t1 d) /\ erase_oc cls (t2 d') = erase_oc cls (t2 d).
+Proof. exact realign_spec_oc. Qed.
+Print Assumptions C16_realign_oc.
+
+(* _join_delete_insert: REPLACE(new, old) is old on the t1 side and new on the t2 side *)
+Theorem C16_join : forall d j, join_delete_insert d = Ok j -> jt1 j = t1 d /\ jt2 j = t2 d.
+Proof. exact join_spec. Qed.
+Print Assumptions C16_join.
+
+(* ---- totality: no index error, no loop or recursion runs out of fuel ---- *)
+
+(* diff_cleanupMerge and diff_cleanupSemantic return for EVERY segment list *)
+Theorem C16_no_error_merge : forall d, exists d', cleanupMerge d = Ok d'.
+Proof. exact cleanupMerge_total. Qed.
+Print Assumptions C16_no_error_merge.
+
+Theorem C16_no_error_semantic : forall cc d, exists d', diff_cleanupSemantic cc d = Ok d'.
+Proof. exact cleanupSemantic_total. Qed.
+Print Assumptions C16_no_error_semantic.
+
+(* _join_delete_insert (as repaired) never raises; _realign_placeholders can (its assert) *)
+Theorem C16_no_error_join : forall d, exists j, join_delete_insert d = Ok j.
+Proof. exact join_total. Qed.
+Print Assumptions C16_no_error_join.
+
+(* diff_main returns for all clocks and strings PROVIDED diff_bisect's middle-snake search does.
+   [bisect_safe] (XV.DMPTotalMain) says: on texts of length >= 2 whose first characters differ, whose
+   last characters differ and neither of which contains the other -- all that diff_compute passes to
+   diff_bisect -- [bisect_core] returns Ok, and a split point (x, y) it reports satisfies
+   0 <= x <= len text1, 0 <= y <= len text2 and 0 < x + y < len text1 + len text2.
+   Everything else is proved: the binary searches, diff_commonOverlap, diff_halfMatch, the line
+   encoding, diff_lineMode's re-diff loop, diff_cleanupMerge (including its self-recursion),
+   diff_cleanupSemantic, and that [main_fuel] bounds the nesting depth of diff_main.
+   MISSING for the unconditional C16_no_error: a proof of [bisect_safe], i.e. of the invariants of
+   Myers' algorithm as trimmed by k1start/k1end/k2start/k2end (entries of v1/v2 that are read have
+   been written and lie in the grid; an overlap is never detected at a corner of the grid when
+   neither text contains the other).  The correspondence check compares model and implementation on
+   every run and reports any case where the model returns an error. *)
+Theorem C16_no_error_partial : bisect_safe -> forall cc clock a b, exists d, diff_main cc clock a b = Ok d.
+Proof. intros H cc clock a b. exact (diff_main_total cc clock a b H). Qed.
+Print Assumptions C16_no_error_partial.
